@@ -100,11 +100,12 @@ type c43Client struct {
 	joinedOnce bool
 	safe       bool
 	// recorded at the last request of a client that goes silent
-	genAtLast int32
-	incAtLast int
-	checkAt   time.Duration
-	checked   bool
-	gone      bool
+	genAtLast   int32
+	incAtLast   int
+	checkAt     time.Duration
+	checked     bool
+	gone        bool
+	exclCounted bool
 }
 
 type c43Result struct {
@@ -145,7 +146,7 @@ func (s *c43Sim) violate(format string, args ...any) {
 }
 
 func (s *c43Sim) tr(format string, args ...any) {
-	if len(s.res.trace) < 400 {
+	if len(s.res.trace) < 6000 {
 		s.res.trace = append(s.res.trace, fmt.Sprintf("%9.3fs ", s.now().Seconds())+fmt.Sprintf(format, args...))
 	}
 }
@@ -209,7 +210,8 @@ func (s *c43Sim) observe() c43WB {
 				if now-s.bumpSeen > s.rtMax+s.interval+time.Millisecond {
 					sessionBoundPassed := now > c.lastReq+c43Ms(c.SessMs)+s.interval+time.Millisecond
 					if s.opts.excludeReb && !sessionBoundPassed {
-						if !c.checked {
+						if !c.exclCounted {
+							c.exclCounted = true
 							s.res.exclReb++
 						}
 						continue
@@ -462,16 +464,16 @@ func c43Simulate(t *testing.T, env c43Env, opts c43Opts) *c43Result {
 			horizon = 240 * time.Second
 		}
 		for _, c := range s.cl {
-			// "safe": consecutive requests never further apart than min(S, smallest RT)
-			lim := c43Ms(c.SessMs)
-			if s.rtMin < lim {
-				lim = s.rtMin
+			// "safe" (literal reading of the statement): no two consecutive requests are as far
+			// apart as the session timeout, and after a failed heartbeat the client is back
+			// with a JoinGroup well inside the smallest rebalance timeout (otherwise dropping
+			// it as a rebalance laggard is allowed by the statement).
+			sess := c43Ms(c.SessMs)
+			c.safe = c43Ms(c.HMs) < sess && c43Ms(c.LatMs) < sess && c43Ms(c.RetryMs) < sess &&
+				c43Ms(c.HMs+c.LatMs) < s.rtMin && c43Ms(c.RetryMs+c.LatMs) < s.rtMin
+			if c.HMs+c.LatMs >= c.SessMs {
+				res.classes["client/hb-plus-latency-ge-session"]++
 			}
-			gap := c43Ms(c.HMs + c.LatMs)
-			if g := c43Ms(c.RetryMs + c.LatMs); g > gap {
-				gap = g
-			}
-			c.safe = gap < lim
 			if c.safe {
 				res.classes["client/safe"]++
 			} else {
